@@ -208,7 +208,23 @@ static bool gen_c07(uint64_t seed, const std::string &tier, uint64_t i, Plan &p)
   p.knobs.set("env", env);
   // body
   int bk = (int)r.below(8); std::string body;
-  if (databytes && databytes <= 100000 && bk < 4) { int64_t n = databytes + (int64_t)r.range(-1, 1); if (n < 0) n = 0; std::string raw; while ((int64_t)raw.size() < n) raw += (raw.size() % 40 == 39) ? '\n' : 'b'; raw.resize((size_t)n); if (!raw.empty()) raw.back() = '\n'; for (char c : raw) { if (c == '\n') body += "\r\n"; else body += c; } }
+  if (databytes && databytes <= 100000 && bk < 4 && r.chance(0.35)) {
+    // stored size within two bytes of the limit, built from lines whose wire form and stored form differ in length: stuffed dots,
+    // bare CRs, and "dot CR other" lines (which this decoder stores with their dot: known finding C05, so the limit is judged on
+    // the stored text). Every byte that reaches the queue counts, whichever branch of the decoder passed it on.
+    int64_t n = databytes + (int64_t)r.range(-2, 3); if (n < 0) n = 0; int64_t stored = 0;
+    while (stored < n) {
+      int64_t left = n - stored; int u = (int)r.below(5);
+      if (u == 0 && left >= 4) { body += ".\rx\r\n"; stored += 4; }               // stored ".\rx\n"
+      else if (u == 1 && left >= 3) { body += "..y\r\n"; stored += 3; }           // stored ".y\n"
+      else if (u == 2 && left >= 3) { body += "a\rb"; stored += 3; }               // bare CR kept
+      else if (u == 3 && left >= 5) { body += ".\r\r\rz\r\n"; stored += 5; }    // stored ".\r\rz\n" (dot-CR, then a CR run that collapses before LF)
+      else if (left >= 2) { body += "b\r\n"; stored += 2; }
+      else { body += "\r\n"; stored += 1; }
+    }
+    if (body.size() < 2 || body.compare(body.size() - 2, 2, "\r\n") != 0) body += "\r\n";
+  }
+  else if (databytes && databytes <= 100000 && bk < 4) { int64_t n = databytes + (int64_t)r.range(-1, 1); if (n < 0) n = 0; std::string raw; while ((int64_t)raw.size() < n) raw += (raw.size() % 40 == 39) ? '\n' : 'b'; raw.resize((size_t)n); if (!raw.empty()) raw.back() = '\n'; for (char c : raw) { if (c == '\n') body += "\r\n"; else body += c; } }
   else if (bk == 4 || bk == 5) { int hops = (int)r.range(97, 102); for (int q = 0; q < hops; q++) body += r.pick(std::vector<std::string>{"Received: by x\r\n", "received: y\r\n", "Delivered-To: z\r\n", "DELIVERED-TO: w\r\n", "RECEIVED\r\n"}); if (r.chance(0.5)) body += "Subject: s\r\n"; body += "\r\nReceived: in body does not count\r\n"; }
   else body = "Subject: t\r\n\r\nhello\r\n..stuffed\r\n";
   std::string helo = r.chance(0.7) ? "HELO " + r.pick(hostile) + "\r\n" : std::string();
